@@ -146,6 +146,54 @@ def check_faults_binary(case):
     return out
 
 
+def check_real(case):
+    """Shipped databases: well-formedness, optionally with the multicomponent equilibrium step failing on a schedule
+    (the documented 'equilibrium did not converge' path: _getCompositionSetsEq returns None)."""
+    sc = case["sc"]
+    th = H.build_therm(sc)
+    injected = []
+    orig = None
+    if case.get("faults") and sc["system"] == "nicral":
+        sched = set(case["faults"])
+        orig = th._getCompositionSetsEq
+        state = {"n": 0, "ok": 0}
+
+        def flaky(x, T, precPhase, cached_composition_sets={}):
+            r = orig(x, T, precPhase, cached_composition_sets)
+            if r is None:
+                return r
+            state["ok"] += 1
+            if state["ok"] <= 6:          # model set-up and first steps need valid values
+                return r
+            state["n"] += 1
+            if state["n"] in sched:
+                injected.append(state["n"])
+                return None
+            return r
+        th._getCompositionSetsEq = flaky
+    try:
+        out, model, tap, trunc = run_checked(sc, therm=th)
+    finally:
+        if orig is not None:
+            del th._getCompositionSetsEq
+    out.label(sc["system"], sc["iterator"])
+    if injected:
+        out.label("equilibrium_fault_injected")
+    if trunc:
+        out.label("truncated")
+    out.nt(tap.steps >= 30 and (not case.get("faults") or bool(injected)))
+    return out
+
+
+@st.composite
+def _real_case(draw):
+    sc = draw(scen.real_scenario(cap=80))
+    faults = None
+    if sc["system"] == "nicral" and draw(st.booleans()):
+        faults = draw(_fault_set(horizon=300))
+    return {"sc": sc, "faults": faults}
+
+
 @st.composite
 def _fault_set(draw, horizon=400):
     kind = draw(st.sampled_from(["sparse", "burst", "dense", "single", "early"]))
@@ -191,4 +239,6 @@ def clauses():
                rule="generator: toy ternary scenario x scripted fault schedule {single, early, sparse, burst, dense up to 0.5/call} for the growth query (returns None) and optionally the impingement factor (falls back); same oracle; non-trivial: a growth fault injected while the driving force is positive in a run that holds precipitates"),
         Clause("faults_binary", _binary_fault_case, check_faults_binary, quick=100, thorough=2000, shrink=False,
                rule="generator: toy binary scenario x scripted schedule of interfacial-composition queries answered with the -1 sentinel for every size; same oracle; non-trivial: a fault injected in a run that holds precipitates"),
+        Clause("real_db", _real_case, check_real, quick=24, thorough=400, shrink=False,
+               rule="generator: Al-Zr and Ni-Al-Cr scenarios on the shipped databases; for Ni-Al-Cr optionally a scripted schedule on which the equilibrium step (_getCompositionSetsEq) returns None, i.e. the documented 'did not converge' path of the real class; same well-formedness oracle; non-trivial: >= 30 steps (with an injected fault when a schedule is present)"),
     ]
